@@ -134,14 +134,16 @@ Theorem C13_offsets : forall N rg ev,
 Proof. exact offsets_spec. Qed.
 Print Assumptions C13_offsets.
 
-(** Composition with the pool model: along any run of pool operations with non-decreasing rounds the
-    ring is fed exactly the calls [calls_of] (pre-operation reserves of the successful
-    reserve-changing operations), and whenever the pool is initialised at the start of round t, the
-    reserves it then holds are [start (calls_of ...) (final reserves) t] — so [start] above IS the
-    start-of-round reserve of the property, however many operations share a round. *)
-Theorem C13_pool_feeds_ring : forall N ops w,
-  run_updates N (sw_ring w) (calls_of N w ops) = Ok (sw_ring (sp_run N w ops)).
-Proof. exact sp_run_ring. Qed.
+(** Composition with the pool model: along any run of pool operations with non-decreasing rounds,
+    started with an empty ring, the calls made ([calls_of]: round and PRE-operation reserves of every
+    successful reserve-changing operation) are well-formed and the ring is [ring_of] of them — so
+    every theorem above speaks about the composed pair.  And whenever the pool is initialised at the
+    start of round t, the reserves it then holds are [start (calls_of ...) (final reserves) t]:
+    [start] IS the start-of-round reserve of the property, however many operations share a round. *)
+Theorem C13_pool_feeds_ring : forall N, 2 <= N -> forall ops w,
+  WorldInv (sw_w w) -> sw_ring w = ring0 -> rounds_from 0 ops ->
+  wf_calls (calls_of N w ops) /\ sw_ring (sp_run N w ops) = ring_of N (calls_of N w ops).
+Proof. exact composed_ring. Qed.
 Print Assumptions C13_pool_feeds_ring.
 
 Theorem C13_start_of_round : forall N ops w t lr, WorldInv (sw_w w) -> rounds_from lr ops ->
@@ -174,3 +176,21 @@ Proof.
     try (repeat constructor; discriminate).
   intros u [<-|[<-|[<-|[<-|[<-|[<-|[]]]]]]]; discriminate.
 Qed.
+
+(** the same through the pool model: a real operation history (several operations per round, an
+    admin call in between, capacity 3 so that the ring wraps) *)
+Example C13_nonvacuous_pool :
+  let w0 := mkSpw (mkWorld (init_pair 300 50 None) (init_pair 300 50 None)) ring0 in
+  let ops := [(1, SetState OWNER 1); (1, Add 1 1000000 3000000 1 1); (5, SwapIn 2 1 12345 2 1);
+              (5, SwapIn 2 2 777 1 1); (6, SetFee OWNER 100 0); (9, Remove 1 5000 1 1);
+              (9, SwapOut 2 1 99999 2 5000); (20, Add 3 500 1500 1 1); (21, SwapIn 2 2 100000 1 1);
+              (40, SwapIn 2 1 1 2 1)] in
+  let w := sp_run 3 w0 ops in
+  rounds_from 0 ops /\ length (calls_of 3 w0 ops) = 8%nat /\
+  sw_ring w = ring_of 3 (calls_of 3 w0 ops) /\ rg_cur (sw_ring w) = 2 /\
+  u_r1 (start (calls_of 3 w0 ops) (upd_of 0 (w_p (sw_w w))) 9) = 1012081 /\
+  p_r1 (w_p (sw_w (sp_run 3 w0 (before 9 ops)))) = 1012081 /\
+  get_safe_price 3 (sw_ring w) (env_of w 50) 22 45 T1 1000000 = Ok (T2, 3120418) /\
+  get_lp_safe_price 3 (sw_ring w) (env_of w 50) 22 45 1000 = Ok (980, 3059) /\
+  is_ok (get_safe_price 3 (sw_ring w) (env_of w 50) 10 45 T1 1000000) = false.
+Proof. vm_compute. repeat split; discriminate. Qed.
